@@ -41,13 +41,18 @@ RULES.update({
     "including whole base distribution / bijection / single arrays / everything) and optimiser faults (teleport of every offered "
     "leaf, gradient NaN/inf/x1e6, zero and sign-flipped updates). Checked: frozen and non-float leaves bit-identical in every "
     "recorded state and in the returned model; returned structure; on state 0, sampled snapshots and the returned model: unwrap "
-    "leaves no wrapper, is idempotent, every method agrees between model and unwrap(model), frozen leaves get exactly zero gradient.",
+    "leaves no wrapper, is idempotent, every method agrees between model and unwrap(model), frozen leaves get exactly zero gradient. In 30 % of the buckets with a freeze plan the same model with a DIFFERENT freeze plan (mostly: nothing frozen) "
+    "is trained briefly in the same process first (process history; probe prelude_sibling_trained).",
     "C11": _B_COMMON + "C11 worlds emphasise teleport faults into the raw box (|raw|<=50; 5 for planar). Checked on state 0, "
     "sampled snapshots and the returned model (finite states only): scales, triangular diagonals, df > 0; masked triangle == 0; "
     "mixture weights normalised; spline knots strictly increasing with exact interval ends and derivatives >= min_derivative (also "
     "for transformers built by coupling/autoregressive conditioners at probe inputs); layers strictly increasing; default affine "
     "transformer scale >= min_scale; planar 1 + w.u_hat > 0. State 0 of named families: accessors reproduce constructor arguments "
-    "drawn log-uniformly in 1e-6..1e6 (half of the named worlds) or 1e-2..1e2.",
+    "drawn log-uniformly in 1e-6..1e6 (half of the named worlds) or 1e-2..1e2 (covariances: half with per-dimension variances of independent "
+    "magnitude, judged entrywise relative to sqrt(cov_ii cov_jj)). 70 % of the worlds carry a PROCESS HISTORY: 0-3 operations before the model is built and "
+    "0-3 after the run (public-API calls that fail - flow constructors with bad arguments, shape mismatches, fit_to_data(val_prop=2) -, rejected invalid "
+    "constructions, successful constructions), after which a panel of 20 invalid constructor calls (non-positive scale, weights, degrees of freedom; "
+    "maxval <= minval; non-permutations) must each still be rejected with an error.",
     "C09": _B_COMMON + "C09 worlds are masked-autoregressive and coupling flows (dim 1-4, width 1-5 incl. width<dim, depth 0-2, "
     "conditional or not, affine or spline transformer, both orientations) trained with teleport faults so masked-out raw weights take "
     "large values of both signs. Checked per layer on state 0, sampled snapshots and the returned model: strictly-upper Jacobian "
@@ -97,7 +102,8 @@ NOT_EXERCISED = {
     "C09": ["BlockAutoregressiveNetwork / BNAF (WeightNormalization cannot be constructed under the installed equinox)",
             "'no permitted dependency is missing when width >= dim' and the mask helper patterns (pure functions of sizes)"],
     "C11": ["weight-normalised rows keep their norm parameter (WeightNormalization unconstructible here)",
-            "rejection of invalid constructor arguments (single pure call)"],
+            "rejection of invalid constructor arguments as a function of the argument alone (edge-of-validity sweep: a single pure call); "
+            "what IS exercised is that a fixed panel of invalid arguments stays rejected along process histories"],
     "C12": ["WeightNormalization nesting (unconstructible here)", "unwrap of arbitrary pytrees beyond the zoo's shapes",
             "vmapped-constructed wrapper == stack of individually constructed ones (pure)"],
     "C18": ["gradients w.r.t. the input; log_prob at arbitrary single points outside a training run (pure)", "BNAF log-space accumulation (unconstructible)"],
